@@ -67,6 +67,10 @@ type op struct {
 	R      uint64
 	Stores []uint64
 	F      fault
+	// setenv: the replication settings the store operations look at
+	Loc    []string
+	Strict bool
+	PR     bool
 }
 
 type caseIn struct {
@@ -116,6 +120,17 @@ func (f fault) coq() string {
 	return fmt.Sprintf("(Fault %s %d %s)", coqfmt.ZU(f.SID), f.Idx, []string{"FBefore", "FAfter"}[f.Kind])
 }
 
+// setEnv changes the replication settings PutStore reads (location-labels, strictly-match-label, enable-placement-rules)
+// directly in the served options: the configuration path itself is C18's subject
+func (w *world) setEnv(loc []string, strict, pr bool) {
+	opt := w.s.GetPersistOptions()
+	rp := opt.GetReplicationConfig().Clone()
+	rp.LocationLabels = append([]string(nil), loc...)
+	rp.StrictlyMatchLabel = strict
+	rp.EnablePlacementRules = pr
+	opt.SetReplicationConfig(rp)
+}
+
 func idsCoq(xs []uint64) string {
 	s := make([]string, len(xs))
 	for i, x := range xs {
@@ -146,6 +161,12 @@ func (o op) coq() string {
 		return fmt.Sprintf("OHeartbeat %s %s", coqfmt.ZU(o.ID), o.F.coq())
 	case "region":
 		return fmt.Sprintf("ORegion %s %s", coqfmt.ZU(o.R), idsCoq(o.Stores))
+	case "setenv":
+		ls := make([]string, len(o.Loc))
+		for i, l := range o.Loc {
+			ls[i] = qs(l)
+		}
+		return fmt.Sprintf("OSetEnv (Env %s %s %s)", coqfmt.List(ls), coqfmt.Bool(o.Strict), coqfmt.Bool(o.PR))
 	}
 	panic("bad op " + o.K)
 }
@@ -261,6 +282,7 @@ func (w *world) reset(cv string, boot payload, useEtcd bool) {
 		panic(err)
 	}
 	w.s.GetPersistOptions().SetClusterVersion(semver.New(cv))
+	w.setEnv(nil, false, true) // model: boot has Env [] false true
 	if err := w.st.SaveStore(boot.store()); err != nil {
 		panic(err)
 	}
@@ -404,6 +426,10 @@ func (w *world) errRes(err error) string {
 		return "RDupAddr"
 	case strings.Contains(m, "region peers, it cannot be buried"):
 		return "RHasPeers"
+	case strings.Contains(m, "label configuration is incorrect"), strings.Contains(m, "key matching the label was not found"):
+		return "RLabel"
+	case strings.Contains(m, "placement rules is disabled"):
+		return "RTiFlash"
 	case strings.Contains(m, "not found"):
 		return "RNotFound"
 	}
@@ -445,6 +471,9 @@ func (w *world) call(o *op, fillOrder bool) string {
 		} else {
 			r = w.errRes(w.rc.PutStore(o.P.store()))
 		}
+	case "setenv":
+		w.setEnv(o.Loc, o.Strict, o.PR)
+		r = "ROk"
 	case "labels":
 		r = w.errRes(w.rc.UpdateStoreLabels(o.ID, mkLabels(o.Labels), o.Force))
 	case "remove":
@@ -608,6 +637,8 @@ func genPairOp(r *rng.R, kind int, sid uint64, addr string) op {
 		return op{K: "check"}
 	case 7:
 		return op{K: "clean"}
+	case 9: // a store heartbeat through the real gRPC handler (HandleStoreHeartbeat takes the cluster lock)
+		return op{K: "heartbeat", ID: sid}
 	default: // a region heartbeat that places (or removes) a peer on the store
 		if r.Pct(70) {
 			return op{K: "region", R: 1, Stores: []uint64{1, sid}}
@@ -632,6 +663,11 @@ var pairScripts = []pairScript{
 	// the store moves to another address while its labels are updated
 	{A: op{K: "put", P: payload{ID: 2, Addr: "a9", Ver: "4.0.5"}}, B: op{K: "labels", ID: 2, Labels: []lab{{"zone", "w"}}}, Park: 0},
 	{Offline: true, A: op{K: "remove", ID: 2, PD: true}, B: op{K: "up", ID: 2}, Park: 0},
+	// tombstone cleanup parked at each of its three writes while that store's heartbeat arrives (HandleStoreHeartbeat vs
+	// RemoveTombStoneRecords: the heartbeat must see the tombstone or no store at all, and must not bring the record back)
+	{Offline: true, Buried: true, A: op{K: "clean"}, B: op{K: "heartbeat", ID: 2}, Park: 0},
+	{Offline: true, Buried: true, A: op{K: "clean"}, B: op{K: "heartbeat", ID: 2}, Park: 1},
+	{Offline: true, Buried: true, A: op{K: "clean"}, B: op{K: "heartbeat", ID: 2}, Park: 2},
 }
 
 func (w *world) runPair(r *rng.R) pairRec { return w.runPairWith(r, nil) }
@@ -776,13 +812,83 @@ func (w *world) runPairWith(r *rng.R, sc *pairScript) pairRec {
 		step(op{K: "check"})
 	}
 	p.A = genPairOp(r, r.Intn(8), sid, "a2")
-	p.B = genPairOp(r, r.Intn(9), sid, "a2") // a region heartbeat has no store write to be parked at: only as b
+	p.B = genPairOp(r, r.Intn(10), sid, "a2") // region and store heartbeats have no (countable) store write to be parked at: only as b
 	p.ParkIdx = r.Pick(60, 20, 20)
 	w.kb.Arm(nil)
 	p.Before = w.snapshot("ROk")
 	p.RA, p.RB, p.Mid, p.Overlaid = w.execPair(&p.A, &p.B, sid, p.ParkIdx)
 	p.Final = w.snapshot("ROk")
 	return p
+}
+
+// ---------- several failing writes in one operation ----------
+type mfail struct {
+	Idx  int
+	Kind int // 0 not applied, 1 applied but reported failed
+}
+type multiRec struct {
+	In     caseIn
+	Op     op // weight | clean (store 2 is the only tombstone then)
+	Faults []mfail
+	Obs    string
+}
+
+func (w *world) runMulti(r *rng.R) multiRec {
+	boot := payload{ID: 1, Addr: "a1", Ver: "4.0.0"}
+	w.reset("0.0.0", boot, false)
+	m := multiRec{In: caseIn{CV: "0.0.0", Boot: boot}}
+	step := func(o op) {
+		w.exec(&o)
+		m.In.Ops = append(m.In.Ops, o)
+	}
+	const sid = 2
+	step(op{K: "put", P: payload{ID: sid, Addr: "a2", Ver: "4.0.0", Labels: genLabels(r)}})
+	if r.Pct(50) {
+		step(op{K: "weight", ID: sid, LW: 2, RW: 3})
+	}
+	if r.Pct(45) {
+		step(op{K: "remove", ID: sid})
+		step(op{K: "check"})
+		m.Op = op{K: "clean"}
+	} else {
+		m.Op = op{K: "weight", ID: sid, LW: int64(4 + r.Intn(3)), RW: int64(7 + r.Intn(2))}
+	}
+	n := r.Pick(0, 25, 50, 25) // 1..3 failing writes among the first 7 of the operation on this store
+	used := map[int]bool{}
+	plan := map[string]kvx14.Kind{}
+	for len(m.Faults) < n {
+		i := r.Intn(7)
+		if used[i] {
+			continue
+		}
+		used[i] = true
+		k := r.Pick(60, 40)
+		m.Faults = append(m.Faults, mfail{i, k})
+		plan[kvx14.PlanKey(strconv.Itoa(sid), i)] = []kvx14.Kind{kvx14.FailBefore, kvx14.FailAfter}[k]
+	}
+	sort.Slice(m.Faults, func(i, j int) bool { return m.Faults[i].Idx < m.Faults[j].Idx })
+	w.kb.Arm(plan)
+	res := w.call(&m.Op, false)
+	w.kb.Arm(nil)
+	m.Obs = w.snapshot(res)
+	return m
+}
+
+func (m multiRec) coq() string {
+	ops := make([]string, len(m.In.Ops))
+	for i, o := range m.In.Ops {
+		ops[i] = o.coq()
+	}
+	cv, _ := verTriple(m.In.CV)
+	fs := make([]string, len(m.Faults))
+	for i, f := range m.Faults {
+		fs[i] = fmt.Sprintf("(%d%%nat, %s)", f.Idx, []string{"FBefore", "FAfter"}[f.Kind])
+	}
+	o := "MCleanOne 2%Z"
+	if m.Op.K == "weight" {
+		o = fmt.Sprintf("MWeight %s %s %s", coqfmt.ZU(m.Op.ID), coqfmt.Z(m.Op.LW), coqfmt.Z(m.Op.RW))
+	}
+	return "(" + cv + ", " + m.In.Boot.coq() + ",\n  " + coqfmt.List(ops) + ",\n  " + o + ", " + coqfmt.List(fs) + ",\n  " + m.Obs + ")"
 }
 
 func (p pairRec) coq() string {
@@ -867,6 +973,15 @@ func genFault(r *rng.R, sid uint64, maxIdx int, pct int) fault {
 
 func gen(r *rng.R, sh *shadow, malformed bool) op {
 	fp := 14
+	if r.Pct(5) { // the replication settings change: strict label matching, placement rules off (TiFlash guard)
+		var loc []string
+		for _, k := range []string{"zone", "host"} {
+			if r.Pct(50) {
+				loc = append(loc, k)
+			}
+		}
+		return op{K: "setenv", Loc: loc, Strict: r.Pct(60), PR: r.Pct(55)}
+	}
 	switch r.Pick(24, 8, 14, 8, 4, 12, 7, 6, 7, 10) {
 	case 0: // put
 		p := payload{ID: uint64(1 + r.Intn(5)), Ver: versions[r.Pick(40, 25, 15, 10, 10)], Labels: genLabels(r)}
@@ -894,6 +1009,9 @@ func gen(r *rng.R, sh *shadow, malformed bool) op {
 			case 4:
 				p.State, p.PD = 2, true
 			}
+		}
+		if r.Pct(12) {
+			p.Labels = append(p.Labels, lab{"engine", "tiflash"})
 		}
 		return op{K: "put", Grpc: r.Pct(50), P: p, F: genFault(r, p.ID, 1, fp+6)}
 	case 1:
@@ -984,6 +1102,7 @@ func main() {
 	corpus := flag.String("corpus", "", "json file of fixed cases run first")
 	replay := flag.String("replay", "", "json file with cases (or an evidence replay file): run and print observations")
 	npairs := flag.Int("pairs", 80, "number of overlapping-operation cases")
+	nmulti := flag.Int("multi", 60, "number of cases with several failing writes in one operation (restoring writes included)")
 	flag.Parse()
 
 	w, err := newWorld()
@@ -1145,6 +1264,29 @@ func main() {
 			panic(err)
 		}
 		R.CaseFiles = append(R.CaseFiles, of.Files...)
+	}
+	if *replay == "" && *nmulti > 0 {
+		for len(raw)%cf.PerFile != 0 {
+			raw = append(raw, nil)
+		}
+		mf := &coqfmt.CaseFile{Dir: *out, Prefix: "C14m", PerFile: cf.PerFile,
+			Header: cf.Header, Type: "mcase",
+			Footer: "Definition M := Eval vm_compute in mmismatches cases.\nDefinition D := Eval vm_compute in (@nil nat).\nDefinition V := Eval vm_compute in monitor_m_fails cases.\nPrint M. Print D. Print V.\n"}
+		master := rng.New(*seed ^ 0x3f17c14)
+		for k := 0; k < *nmulti; k++ {
+			m := w.runMulti(master.Fork(uint64(k)))
+			R.Count(fmt.Sprintf("multi-fault:%s:%d-failing-writes", m.Op.K, len(m.Faults)))
+			txt := m.coq()
+			R.Case(txt, true)
+			if err := mf.Add(txt); err != nil {
+				panic(err)
+			}
+			raw = append(raw, m)
+		}
+		if err := mf.Flush(); err != nil {
+			panic(err)
+		}
+		R.CaseFiles = append(R.CaseFiles, mf.Files...)
 	}
 	for k := range w.notes {
 		R.Notes = append(R.Notes, k)
